@@ -1,6 +1,7 @@
 import Unimock.Driver.Universe
 import Unimock.Model.Interleave
 import Unimock.Model.ValueChain
+import Unimock.Model.Codegen.Method
 /-!
 # Line protocol: parse scenarios, run them on the model, print the canonical trace
 
@@ -388,6 +389,60 @@ def runChainScenario (lines : List (List String)) : Array String := Id.run do
       out := out.push s!"mut reads={v} distinct=true drops={showSerials (dropped.map (·.serial))}"
     | _ => pure ()
   out := out.push s!"drop drops={showSerials (chain.dropAll.map (·.serial))}"
+  return out
+
+end Unimock.Driver
+
+namespace Unimock.Driver
+open Unimock.Codegen
+
+/-! ## macro shapes (`shape` lines): print the code-generation model's facts -/
+
+def parseRecv : String → Recv
+  | "ref" => .ref | "mut" => .mutRef | "own" => .owned | "rc" => .rc | "arc" => .arc | _ => .pinMut
+
+def parsePClass : String → PClass
+  | "own" => .owned | "ref" => .ref | "refref" => .refRef | "mut" => .mutRef | "imp" => .mutImpossible | _ => .slice
+
+def parseParams (s : String) : List Param :=
+  ((s.splitOn ",").filter (· ≠ "")).map fun x =>
+    match x.splitOn ":" with
+    | [n, c] => ⟨n, parsePClass c⟩
+    | _ => ⟨x, .owned⟩
+
+def parseUnmock (s : String) : Unmock :=
+  match s.splitOn "@" with
+  | ["path", p] => .path p
+  | ["listed", p, args] => .listed p ((args.splitOn ";").filter (· ≠ ""))
+  | ["listed", p] => .listed p []
+  | _ => .none
+
+def parseApi (s : String) (method : String) (flatIdent : String) : Api :=
+  match s.splitOn ":" with
+  | ["mod", m] => .modul m
+  | ["flat"] => let _ := method; .flat flatIdent
+  | _ => .hidden
+
+/-- `shape <id> trait=T api=.. | m name=.. recv=.. async=.. rpit=.. default=.. unmock=.. params=.. flat=.. | m ...` -/
+def runShape (line : String) : Array String := Id.run do
+  let parts := (line.splitOn "|").map words
+  let hd := parts.headD []
+  let tr := (kv hd "trait").getD "T"
+  let api := (kv hd "api").getD "hidden"
+  let ms : List MethodShape := (parts.drop 1).map fun t =>
+    let name := (kv t "name").getD "m"
+    { traitName := tr, name := name, recv := parseRecv ((kv t "recv").getD "ref"),
+      params := parseParams ((kv t "params").getD ""), isAsync := kvNat t "async" == 1, rpit := kvNat t "rpit" == 1,
+      hasDefault := kvNat t "default" == 1, unmock := parseUnmock ((kv t "unmock").getD "none"),
+      api := parseApi api name ((kv t "flat").getD name) }
+  let mut out : Array String := #[]
+  for m in ms do
+    for l in renderMockFn m do out := out.push l
+  for m in ms do
+    for l in renderMethod m do out := out.push l
+  if ms.any (·.hasDefault) then
+    for m in ms.filter (!·.hasDefault) do
+      for l in renderDelegator m do out := out.push l
   return out
 
 end Unimock.Driver
